@@ -275,7 +275,7 @@ func TestVerifC22(t *testing.T) {
 			runOne(cs)
 		}
 		r := vNewRand(vSeed())
-		n := vN(220, 3000)
+		n := vN(180, 2600)
 		segs := []string{"a", "b", "", ".", "..", "/", "a/b", "a/", "/a", "../", "x.y", "a//b", "...", "ü"}
 		for i := 0; i < n; i++ {
 			rr := r.Fork()
